@@ -230,6 +230,12 @@ func waitReadable(fd int, d time.Duration) {
 	syscall.Syscall6(syscall.SYS_PPOLL, uintptr(unsafe.Pointer(&pfd)), 1, uintptr(unsafe.Pointer(&ts)), 0, 0, 0)
 }
 
+func cpuNow() time.Duration {
+	var ru syscall.Rusage
+	syscall.Getrusage(syscall.RUSAGE_SELF, &ru)
+	return time.Duration(ru.Utime.Nano() + ru.Stime.Nano())
+}
+
 // ---------------------------------------------------------------- task side
 
 //go:norace
@@ -514,6 +520,7 @@ func (s *Sched) settle(rootHello map[int64]*task, needRoots int) bool {
 	backoff := 20 * time.Microsecond
 	idle := 0
 	start := time.Now()
+	cpuStart := cpuNow()
 	for {
 		got := s.drain(rootHello)
 		if s.out.Trouble != "" {
@@ -604,8 +611,12 @@ func (s *Sched) settle(rootHello map[int64]*task, needRoots int) bool {
 			idle = 0
 			backoff = 20 * time.Microsecond
 		}
-		if time.Since(start) > 120*time.Second {
-			s.out.Trouble = "tasks did not settle within 120 s: " + s.describe()
+		// a task that neither parks nor blocks: judged by the CPU time the
+		// process burns meanwhile, not by wall time (on an overloaded machine
+		// a starved process makes no progress through no fault of its own);
+		// wall time only as a last resort
+		if cpu := cpuNow() - cpuStart; cpu > 300*time.Second || time.Since(start) > 45*time.Minute {
+			s.out.Trouble = fmt.Sprintf("tasks did not settle (%v CPU, %v wall): %s", cpu.Round(time.Second), time.Since(start).Round(time.Second), s.describe())
 			return false
 		}
 		waitReadable(s.cmdR, backoff)
